@@ -6,15 +6,14 @@ CONSTANTS
  HashSession = TRUE
  HashId = TRUE
  DedupMode = "peer+id"
- AtomicDedup = TRUE
+ AtomicDedup = FALSE
  AllowRelay = TRUE
- MCCfgs <- CfgAll
+ MCCfgs <- Cfg3
  Bodies = {x, y}
- MaxFSig = 99
- MaxB = 1
- Conc = 0
+ MaxFSig = 4
+ MaxB = 0
+ Conc = 2
  Lists = "best"
 SYMMETRY Sym
-INVARIANTS Safety
-PROPERTIES Monotone
+INVARIANTS DedupFunctional
 CHECK_DEADLOCK FALSE
